@@ -92,12 +92,20 @@ InitRest == /\ pc = "decide" /\ enc = None /\ res = "ok"
 Init == cell \in Cells /\ InitRest
 
 (* ---------------- Lexer.decode_raw_stream ---------------- *)
+\* The ENTRY through which the template comes in (cell.ent) and where the encoding options were given:
+\*   "direct"        Template(text=bytes | filename=..., input_encoding=..., output_encoding=..., ...)
+\*   "lookup"        TemplateLookup(dirs, <the options>).get_template(uri)         (lookup.py _load: **template_args)
+\*   "put_string"    TemplateLookup(<the options>).put_string(uri, bytes | str)    (lookup.py put_string: **template_args)
+\*   "put_template"  a Template built with the options, placed with put_template() into a lookup that has OTHER options
+\* Whichever it is, the input_encoding that reaches Lexer(..., input_encoding=) -- known_encoding in decode_raw_stream --
+\* is the one that was configured for this template, and so for output_encoding / encoding_errors at render time.
+Handed(c) == c.ie
 Decide ==
   /\ pc = "decide"
   /\ UNCHANGED <<cell, content, modfile, loaded, src, uni, out>>
   /\ IF cell.form = "str"
      THEN \* isinstance(text, str): nothing is decoded; the encoding is only remembered
-          /\ enc' = (IF cell.cm # None THEN cell.cm ELSE IF cell.ie # None THEN cell.ie ELSE "utf_8")
+          /\ enc' = (IF cell.cm # None THEN cell.cm ELSE IF Handed(cell) # None THEN Handed(cell) ELSE "utf_8")
           /\ text' = cell.c /\ res' = res /\ pc' = "lex"
      ELSE IF cell.bom
      THEN IF cell.cm # None /\ cell.cm # "utf_8"
@@ -107,7 +115,7 @@ Decide ==
                \/ /\ Canon[cell.cm] = "utf_8"
                   /\ enc' = "utf_8" /\ pc' = "decode" /\ UNCHANGED <<res, text>>
           ELSE /\ enc' = "utf_8" /\ pc' = "decode" /\ UNCHANGED <<res, text>>
-     ELSE /\ enc' = (IF cell.cm # None THEN cell.cm ELSE IF cell.ie # None THEN cell.ie ELSE "utf_8")
+     ELSE /\ enc' = (IF cell.cm # None THEN cell.cm ELSE IF Handed(cell) # None THEN Handed(cell) ELSE "utf_8")
           /\ pc' = "decode" /\ UNCHANGED <<res, text>>
 Decode ==
   /\ pc = "decode"
